@@ -152,6 +152,38 @@ m("c15-diesel-ignores-broken-tx", 'diesel/src/manager.rs',
 """        if C::TransactionManager::is_broken_transaction_manager(conn) {""",
 """        if false && C::TransactionManager::is_broken_transaction_manager(conn) {""", ["C15"])
 
+PC='postgres/src/config.rs'
+m("c18-channel-binding-dropped", PC,
+"""        if let Some(channel_binding) = self.channel_binding {
+            cfg.channel_binding(channel_binding.into());
+        }
+""", "", ["C18"])
+m("c18-ports-before-port", PC,
+"""        if let Some(port) = self.port {
+            cfg.port(port);
+        }
+        if let Some(ports) = &self.ports {
+            for port in ports.iter() {
+                cfg.port(*port);
+            }
+        }""",
+"""        if let Some(ports) = &self.ports {
+            for port in ports.iter() {
+                cfg.port(*port);
+            }
+        }
+        if let Some(port) = self.port {
+            cfg.port(port);
+        }""", ["C18"])
+m("c18-empty-dbname-overrides", PC,
+"""        if let Some(dbname) = self.dbname.as_ref().filter(|s| !s.is_empty()) {""",
+"""        if let Some(dbname) = self.dbname.as_ref() {""", ["C18"])
+m("c18-default-host-always", PC,
+"""        if cfg.get_hosts().is_empty() {
+            // Systems that support it default to unix domain sockets.""",
+"""        if self.host.is_none() && self.hosts.is_none() {
+            // Systems that support it default to unix domain sockets.""", ["C18"])
+
 def run(cmd, **kw):
     return subprocess.run(cmd, shell=True, capture_output=True, text=True, **kw)
 
@@ -177,7 +209,7 @@ def main():
                 r = run("/verif/check %s --tier quick" % prop, env=dict(os.environ, VERIF_DIR="/tmp/ev"))
                 v = [l for l in r.stdout.splitlines() if l.startswith("VIOLATION")]
                 keys = [l.strip() for l in r.stderr.splitlines() if l.strip().startswith(prop + " [")]
-                print("%-40s %s exit=%d %.0fs %s" % (mu["name"], prop, r.returncode, time.time() - t, keys[:3]), flush=True)
+                print("%-40s %s exit=%d %.0fs %s" % (mu["name"], prop, r.returncode, time.time() - t, [k[:160] for k in keys[:3]]), flush=True)
                 if r.returncode == 2:
                     print(r.stderr[-1500:])
                 results[(mu["name"], prop)] = r.returncode
